@@ -83,12 +83,18 @@ def gen_refine(rng, combo=None):
                 correlation=str(rng.choice(['fast', 'fullframe', 'sparse'])) if combo is None else combo[0],
                 match=str(rng.choice(['fast', 'affine'])) if combo is None else combo[1],
                 tolerance=float(rng.choice([0.4, 1.0, 3.0])) if combo is None or len(combo) < 4 else combo[3], parts=rand_partitions(rng, n),
-                upsample=[False, False, True, 4, 7][int(rng.integers(0, 5))])
+                upsample=[False, False, True, 4, 7][int(rng.integers(0, 5))], mm_equals_peaks=bool(rng.integers(0, 4) == 0))
 
 
 def refine_failure(c):
     pattern = pat.RadialGradient(radius=c['radius'], search=c['search'])
-    matcher = grm.Matcher(tolerance=c['tolerance'], min_weight=0.05, min_match=3)
+    mm = 3
+    if c.get('mm_equals_peaks'):
+        # min_match equal to the number of lattice positions that are correlated: a frame in which all of them match has exactly min_match peaks
+        fl = flat_indices(c['indices'])
+        co = c['zero'] + fl @ np.array([c['a'], c['b']])
+        mm = max(3, int(sum(1 for q in co if c['search'] <= q[0] < c['data'].shape[1] - c['search'] and c['search'] <= q[1] < c['data'].shape[2] - c['search'])))
+    matcher = grm.Matcher(tolerance=c['tolerance'], min_weight=0.05, min_match=mm)
     n, fy, fx = c['data'].shape
     zs = c['zs']
     if isinstance(zs, str):
@@ -332,7 +338,7 @@ def run(ctx):
         c = gen_refine(rng, combos[k] if k < len(combos) else None)
         fail = refine_failure(c)
         ctx.count(len(c['data']), key=('refine', c['zero'].tolist(), c['parts'], c['zk'], c['correlation'], c['match']))
-        for nm in ('correlation', 'match', 'zk', 'layout', 'zs_form', 'upsample'):
+        for nm in ('correlation', 'match', 'zk', 'layout', 'zs_form', 'upsample', 'mm_equals_peaks'):
             ctx.hist(nm, c[nm])
         if len(ctx.cov['samples']) < 4:
             ctx.sample({'frames': len(c['data']), 'shape': list(c['data'].shape[1:]), 'partitions': c['parts'], 'zero_shift': c['zk'], 'correlation': c['correlation'], 'match': c['match'],
